@@ -249,7 +249,20 @@ pub fn run(out: &mut Out, thorough: bool, seed: u64) {
 /// Context errors (key kinds, multi flavour) are not typing and are skipped.
 fn typeof_stream(out: &mut Out, thorough: bool, rng: &mut Rng) {
     use crate::ast::{self, CtxK, Node};
-    fn one<Pk: ast::KeyOf, Ctx: miniscript::ScriptContext>(out: &mut Out, ctx: CtxK, n: &Node) {
+    trait Reparse: ast::KeyOf {
+        fn reparse<Ctx: miniscript::ScriptContext>(s: &str) -> Result<miniscript::Miniscript<Self, Ctx>, miniscript::Error>;
+    }
+    impl Reparse for miniscript::bitcoin::PublicKey {
+        fn reparse<Ctx: miniscript::ScriptContext>(s: &str) -> Result<miniscript::Miniscript<Self, Ctx>, miniscript::Error> {
+            miniscript::Miniscript::<Self, Ctx>::from_str_with_validation_params(s, &miniscript::ValidationParams::MAX)
+        }
+    }
+    impl Reparse for miniscript::bitcoin::secp256k1::XOnlyPublicKey {
+        fn reparse<Ctx: miniscript::ScriptContext>(s: &str) -> Result<miniscript::Miniscript<Self, Ctx>, miniscript::Error> {
+            miniscript::Miniscript::<Self, Ctx>::from_str_with_validation_params(s, &miniscript::ValidationParams::MAX)
+        }
+    }
+    fn one<Pk: Reparse, Ctx: miniscript::ScriptContext>(out: &mut Out, ctx: CtxK, n: &Node) {
         let ans = match ast::to_ms::<Pk, Ctx>(n) {
             Ok(ms) => ts(&ms.ty),
             Err(e) if e.starts_with("typecheck") => "ERR".to_string(),
@@ -257,6 +270,22 @@ fn typeof_stream(out: &mut Out, thorough: bool, rng: &mut Rng) {
         };
         out.count(if ans == "ERR" { "typeof: rejected" } else { "typeof: accepted" });
         out.line(&format!("C typeof {} {}", ctx.name(), n.wire()), &ans);
+        // the other routes by which a typed Miniscript reaches a caller: the text parser and the
+        // script decoder build their nodes themselves; both must carry the same type
+        if let Ok(ms) = ast::to_ms::<Pk, Ctx>(n) {
+            let text = ms.to_string();
+            match std::panic::catch_unwind(|| Pk::reparse::<Ctx>(&text)) {
+                Ok(Ok(p)) => { out.count("typeof: route from_str"); out.line(&format!("C typeof {} {}", ctx.name(), n.wire()), &ts(&p.ty)); }
+                Ok(Err(_)) => out.count("typeof: text form not re-parsed (skipped)"),
+                Err(_) => out.count("typeof: from_str panicked (C11's business)"),
+            }
+            let script = ms.encode();
+            match std::panic::catch_unwind(|| miniscript::Miniscript::<Ctx::Key, Ctx>::decode_with_validation_params(&script, &miniscript::ValidationParams::MAX)) {
+                Ok(Ok(p)) => { out.count("typeof: route decode"); out.line(&format!("C typeof {} {}", ctx.name(), n.wire()), &ts(&p.ty)); }
+                Ok(Err(_)) => out.count("typeof: script not decoded (skipped)"),
+                Err(_) => out.count("typeof: decode panicked (C11's business)"),
+            }
+        }
     }
     for ctx in CtxK::ALL {
         // full atoms in every tier: all hash kinds, both lock units, uncompressed keys (Bare/Legacy)
@@ -267,6 +296,25 @@ fn typeof_stream(out: &mut Out, thorough: bool, rng: &mut Rng) {
         pool.push(Node::RawPkH(rb));
         pool.push(Node::Check(Box::new(Node::RawPkH(rb))));
         let bx = |n: &Node| Box::new(n.clone());
+        // the shared designated corpus (wrapper towers, lock / hash / key dimensions): every
+        // subterm through every route
+        {
+            fn subs(n: &Node, acc: &mut Vec<Node>) {
+                acc.push(n.clone());
+                match n {
+                    Node::Alt(x) | Node::Swap(x) | Node::Check(x) | Node::DupIf(x) | Node::Verify(x) | Node::NonZero(x) | Node::ZeroNotEqual(x) => subs(x, acc),
+                    Node::AndV(a, b) | Node::AndB(a, b) | Node::OrB(a, b) | Node::OrC(a, b) | Node::OrD(a, b) | Node::OrI(a, b) => { subs(a, acc); subs(b, acc); }
+                    Node::AndOr(a, b, c) => { subs(a, acc); subs(b, acc); subs(c, acc); }
+                    Node::Thresh(_, xs) => for x in xs { subs(x, acc); },
+                    _ => {}
+                }
+            }
+            let mut all = vec![];
+            out.note(&format!("wrapper_towers_{}", ctx.name()), format!("{} (thin slice in the shared corpus: {})", ast::wrapper_towers(ctx).len(), ast::wrapper_towers_thin(ctx).len()));
+            for n in ast::dimension_corpus(ctx).into_iter().chain(ast::wrapper_towers(ctx)) { subs(&n, &mut all); }
+            let mut seen = std::collections::BTreeSet::new();
+            for n in all { if seen.insert(n.wire()) { crate::with_ctx!(ctx, one(out, ctx, &n)); } }
+        }
         // every pool member itself (leaves included), and the sugar shapes around it
         for a in &pool {
             crate::with_ctx!(ctx, one(out, ctx, a));
